@@ -176,10 +176,13 @@ func c07BuildTest(t c07Test) (*conformancev1.TestCase, error) {
 		RequestHeaders: []*conformancev1.Header{{Name: "x-verif", Value: []string{strings.Join(t.Name, "/"), fmt.Sprint(t.St)}}},
 		RequestDelayMs: 7,
 	}
-	if t.Svc != "" {
+	// "" = unset: an optional string field that is absent, or present with the empty string (what `service: ""` in a
+	// suite file gives) - the two renderings of the same abstract value
+	explicitEmpty := (len(strings.Join(t.Name, "/"))+t.St)%3 == 0
+	if t.Svc != "" || explicitEmpty {
 		req.Service = proto.String(t.Svc)
 	}
-	if t.Mth != "" {
+	if t.Mth != "" || explicitEmpty {
 		req.Method = proto.String(t.Mth)
 	}
 	msg, err := anypb.New(c07ReqMsg(t.St, t.Raw == "resp" || t.Raw == "respnoexp"))
